@@ -52,4 +52,21 @@ theorem sb_get_str_digits (b : Nat) (hb : 2 ≤ b) (hb62 : b ≤ 62) (hnp : pow2
 example : sb_get_str 7 [5, 1] = digitsOf 7 (5 + 2 ^ 64) := by decide +kernel
 example : sb_get_str 10 [0xffffffffffffffff, 0xffffffffffffffff] = digitsOf 10 (2 ^ 128 - 1) := by decide +kernel
 
+/-- mpn_get_str for a power-of-two base (2, 4, 8, 16, 32): the bit-extraction loop, which walks the limbs
+    from the most significant end and assembles the digits that straddle a limb boundary from two limbs,
+    produces exactly the digits of the operand, most significant first, without a leading zero. -/
+theorem get_str_pow2_digits (b : Nat) (hb : 2 ≤ b) (hb62 : b ≤ 62) (hp : pow2P b = true)
+    (up : List Nat) (hu : Limbs up) (hne : up ≠ []) (htop : up.getLast! ≠ 0) :
+    get_str_pow2 b up = digitsOf b (val up) := by
+  have hok := (bases_table_ok.1 b (by omega) hb).2 hp
+  have h64 : bigBase b ≤ 64 := by
+    by_contra hcon
+    have : 2 ^ 64 ≤ 2 ^ bigBase b := Nat.pow_le_pow_right (by omega) (by omega)
+    rw [hok.1] at this; omega
+  exact get_str_pow2_of_table hb hok h64 up hu hne htop
+
+example : get_str_pow2 8 [0xfedcba9876543210, 0x1f] = digitsOf 8 (0xfedcba9876543210 + 2 ^ 64 * 0x1f) := by
+  decide +kernel
+example : get_str_pow2 32 [1, 0, 1] = digitsOf 32 (1 + 2 ^ 128) := by decide +kernel
+
 end Mpir.Radix
